@@ -15,7 +15,7 @@ def BOUND(tier):
 
 
 def RULE(tier):
-    return ("stateless exploration of the real Doist/DoDoer/Doer code: every doer forest shape in the tier's shape set x "
+    return ("" if tier == "quick" else sched.THOROUGH_NOTE + ". ") + ("stateless exploration of the real Doist/DoDoer/Doer code: every doer forest shape in the tier's shape set x "
             "every execution with <= %d deviations from the default answers (config tock/start/limit, leaf kind, per-step return/raise/failing enter/extend(fresh|two|second-enter-fails)/remove(prev|next|parent)). Oracle: inside every scheduler's exit window the alive children exit in reverse enter order, completely, children before parent, and every entered doer has exited when do() returns or raises. "
             "distinct_nontrivial = executions with >=1 deviation whose full event trace was not seen before." % BOUND(tier))
 
@@ -38,4 +38,4 @@ def harness(job, ch):
                    sample=dict(shape=repr(job[1]), trace=[list(map(str, e[:3])) for e in w.trace[:30]]))
 
 
-run_job, replay = standard(harness, BOUND)
+run_job, replay = standard(harness, BOUND, job_bound=sched.tier_bound)
